@@ -111,6 +111,8 @@ def plan(S, prop, mode, tier, avoid):
                 # parameters of very different units (a flux, a position, a shape): sigma ratios up to 1e9, i.e. a
                 # covariance that is ill conditioned by scaling alone (Cholesky does not mind)
                 op["axscale"] = [round(r.uniform(-4.5, 4.5), 2) for _ in range(d)]
+            if op["api"] == "class" and chance(r, 0.5):
+                op["more"] = [wpick(r, [(None, 3), (1, 1), (r.randrange(2, 10), 2)]) for _ in range(r.randrange(1, 4))]
             if prop == "C15":
                 op["pc"] = present.draw(r)
                 op["pm"] = present.draw(r)
@@ -672,41 +674,66 @@ def do_cholesky(run, op):
                      "Cholesky sampling modified its %s argument (%s): %s" % (nm, g_["kind"], bad))
     if not judge:
         return
-    run.checks += 1
-    got = np.asarray(got, dtype="f8")
-    if op["api"] == "class" and n is None:
-        if got.shape != (d,):
-            run.fail("rng.chol.count", feats, "sample() returned shape %r, expected (%d,)" % (got.shape, d))
-            return
-        got = got.reshape(1, d)
-    if got.shape != (nn, d):
-        run.fail("rng.chol.count", feats, "returned shape %r, expected (%d,%d)" % (got.shape, nn, d))
+    mean0 = mean.copy()
+
+    def judge_draw(got, n_, which):
+        run.checks += 1
+        nn_ = 1 if n_ is None else n_
+        got = np.asarray(got, dtype="f8")
+        ff = dict(feats, draw=which)
+        if op["api"] == "class" and n_ is None:
+            if got.shape != (d,):
+                run.fail("rng.chol.count", ff, "sample() returned shape %r, expected (%d,)" % (got.shape, d))
+                return False
+            got = got.reshape(1, d)
+        if got.shape != (nn_, d):
+            run.fail("rng.chol.count", ff, "returned shape %r, expected (%d,%d)" % (got.shape, nn_, d))
+            return False
+        if len(calls) != 1 or calls[0].size != d * nn_:
+            run.fail("rng.chol.source", ff, "dist was called %d times for %r deviates, expected one call for %d"
+                     % (len(calls), [c.size for c in calls], d * nn_))
+            return False
+        Lr = _cholesky(cov)
+        z = calls[0].reshape(d, nn_)
+        ref = (Lr @ z).T + (mean0[None, :] if use_mean else 0.0)
+        scale = (np.abs(Lr) @ np.abs(z)).T + (np.abs(mean0)[None, :] if use_mean else 0.0)
+        # two correct Cholesky factorisations agree to about eps * cond(correlation matrix) relative to |L||z|
+        # (the factorisation is invariant under scaling of the axes, so the condition number of the matrix scaled to
+        # unit diagonal is the one that counts)
+        sd = np.sqrt(np.diag(cov))
+        kappa = float(np.linalg.cond(cov / sd[:, None] / sd[None, :])) if d > 1 else 1.0
+        # ... and the error of an entry of L is relative to the norm of its ROW, not to the entry itself (a small
+        # off-diagonal entry next to large ones carries a large relative error)
+        rown = np.sqrt(np.sum(Lr * Lr, axis=1))
+        scale = np.maximum(scale, (np.max(np.abs(z), axis=0)[:, None] * rown[None, :])
+                           + (np.abs(mean0)[None, :] if use_mean else 0.0))
+        tol = max(1e-12, 64 * np.finfo("f8").eps * kappa) * scale + 1e-300
+        err = np.abs(got - ref)
+        run.margin("rng.chol.value", float(np.max(err / tol)))
+        if np.any(err > tol):
+            i_, k_ = np.argwhere(err > tol)[0]
+            run.fail("rng.chol.value", ff, "%s: sample %d component %d is %r, mean + L z gives %r (L lower-triangular, L L^T = cov)"
+                     % (which, i_, k_, got[i_, k_], ref[i_, k_]))
+            return False
+        return True
+
+    if not judge_draw(got, n, "first draw"):
         return
-    if len(calls) != 1 or calls[0].size != d * nn:
-        run.fail("rng.chol.source", feats, "dist was called %d times for %r deviates, expected one call for %d"
-                 % (len(calls), [c.size for c in calls], d * nn))
-        return
-    Lr = _cholesky(cov)
-    z = calls[0].reshape(d, nn)
-    ref = (Lr @ z).T + (mean[None, :] if use_mean else 0.0)
-    scale = (np.abs(Lr) @ np.abs(z)).T + (np.abs(mean)[None, :] if use_mean else 0.0)
-    # two correct Cholesky factorisations agree to about eps * cond(correlation matrix) relative to |L||z|
-    # (the factorisation is invariant under scaling of the axes, so the condition number of the matrix scaled to
-    # unit diagonal is the one that counts)
-    sd = np.sqrt(np.diag(cov))
-    kappa = float(np.linalg.cond(cov / sd[:, None] / sd[None, :])) if d > 1 else 1.0
-    # ... and the error of an entry of L is relative to the norm of its ROW, not to the entry itself (a small
-    # off-diagonal entry next to large ones carries a large relative error)
-    rown = np.sqrt(np.sum(Lr * Lr, axis=1))
-    scale = np.maximum(scale, (np.max(np.abs(z), axis=0)[:, None] * rown[None, :])
-                       + (np.abs(mean)[None, :] if use_mean else 0.0))
-    tol = max(1e-12, 64 * np.finfo("f8").eps * kappa) * scale + 1e-300
-    err = np.abs(got - ref)
-    run.margin("rng.chol.value", float(np.max(err / tol)))
-    if np.any(err > tol):
-        i, k = np.argwhere(err > tol)[0]
-        run.fail("rng.chol.value", feats, "sample %d component %d is %r, mean + L z gives %r (L lower-triangular, L L^T = cov)"
-                 % (i, k, got[i, k], ref[i, k]))
+    # further draws from the SAME sampler object: each is mean + L z for the deviates of that draw
+    if op["api"] == "class":
+        for t, n_more in enumerate(op.get("more", [])):
+            del calls[:]
+            run.fault("sampler_object_drawn_from_again")
+            try:
+                g2 = cs.sample(n_more) if n_more is not None else cs.sample()
+            except Exception as e:
+                run.fail("rng.chol.raises", feats, "draw #%d from the same CholeskySampler raised %r" % (t + 2, e))
+                return
+            run.event(0, "cholesky_more", "%r" % (n_more,), "ok", adigest(np.asarray(g2)))
+            ok = judge_draw(g2, n_more, "draw #%d from the same sampler" % (t + 2))
+            run._outputs.append(g2)
+            if not ok:
+                return
 
 
 def _cholesky(a):
